@@ -1,0 +1,221 @@
+//go:build verif
+
+package pilosa
+
+// Exported access to the cluster life cycle (cluster state as a function of
+// membership events, coordinator hand-over, ClusterStatus merging) for the
+// /verif harness (extra check X01). No behaviour, only access: what is
+// assembled here is what NewServer assembles around a node's cluster object
+// (cluster + holder + Server as broadcaster + API), and every method forwards
+// to the cluster / Server / API method named in its comment. Messages leave
+// the node through Server.SendTo (serializer + InternalClient.SendMessage) and
+// enter it through API.ClusterMessage, exactly as over HTTP; the harness owns
+// the InternalClient and therefore the network.
+
+import (
+	"bytes"
+	"context"
+	"sort"
+
+	"github.com/pilosa/pilosa/logger"
+)
+
+// VerifLifecycleOptions configures one node.
+type VerifLifecycleOptions struct {
+	Path          string // data directory (holder, .topology)
+	ID            string
+	Host          string // URI host of the node
+	IsCoordinator bool   // the node's configuration says it is the coordinator
+	ReplicaN      int
+	Serializer    Serializer
+	// Send is InternalClient.SendMessage: the serialized message (type byte
+	// first) addressed to the node with the given URI.
+	Send func(uri URI, msg []byte) error
+}
+
+type verifLifecycleClient struct {
+	nopInternalClient
+	send func(uri URI, msg []byte) error
+}
+
+func (c verifLifecycleClient) SendMessage(ctx context.Context, uri *URI, msg []byte) error {
+	return c.send(*uri, append([]byte(nil), msg...))
+}
+
+// VerifLifecycleNode is one node: cluster, holder, Server (broadcaster), API.
+type VerifLifecycleNode struct {
+	c   *cluster
+	h   *Holder
+	srv *Server
+	api *API
+}
+
+// VerifLifecycleNew assembles a node as NewServer does (node value with state
+// DOWN, Coordinator set when the configuration says so, Server as the
+// cluster's broadcaster). It does not call cluster.setup; see Setup.
+func VerifLifecycleNew(o VerifLifecycleOptions) *VerifLifecycleNode {
+	h := NewHolder()
+	h.Path = o.Path
+
+	c := newCluster()
+	c.ReplicaN = o.ReplicaN
+	c.Path = o.Path
+	c.holder = h
+	c.logger = logger.NopLogger
+
+	n := VerifClusterNode(o.ID, o.Host)
+	n.State = nodeStateDown
+	if o.IsCoordinator {
+		c.Coordinator = o.ID
+	}
+	n.IsCoordinator = c.Coordinator == o.ID
+	c.Node = n
+
+	srv := &Server{
+		cluster:       c,
+		holder:        h,
+		serializer:    o.Serializer,
+		logger:        logger.NopLogger,
+		defaultClient: verifLifecycleClient{send: o.Send},
+	}
+	c.broadcaster = srv
+	api := &API{cluster: c, holder: h, server: srv, Serializer: o.Serializer}
+	return &VerifLifecycleNode{c: c, h: h, srv: srv, api: api}
+}
+
+// API returns the node's API.
+func (v *VerifLifecycleNode) API() *API { return v.api }
+
+// Holder returns the node's holder.
+func (v *VerifLifecycleNode) Holder() *Holder { return v.h }
+
+// Setup is cluster.setup (called by NewServer).
+func (v *VerifLifecycleNode) Setup() error { return v.c.setup() }
+
+// OpenHolder is Holder.Open (Server.Open, after waitForStarted).
+func (v *VerifLifecycleNode) OpenHolder() error { return v.h.Open() }
+
+// SetNodeStateReady is cluster.setNodeState(nodeStateReady) (Server.Open,
+// after the holder has opened).
+func (v *VerifLifecycleNode) SetNodeStateReady() error { return v.c.setNodeState(nodeStateReady) }
+
+// Joined reports whether cluster.joining has been closed (markAsJoined).
+func (v *VerifLifecycleNode) Joined() bool {
+	select {
+	case <-v.c.joining:
+		return true
+	default:
+		return false
+	}
+}
+
+// ClusterMessage is API.ClusterMessage on a serialized internal message.
+func (v *VerifLifecycleNode) ClusterMessage(msg []byte) error {
+	return v.api.ClusterMessage(context.Background(), bytes.NewReader(msg))
+}
+
+// EventMessage serializes a NodeEvent the way the gossip event receiver does
+// (MarshalInternalMessage of a NodeEvent carrying the node's meta data).
+func VerifLifecycleEventMessage(s Serializer, event int, n Node) ([]byte, error) {
+	return MarshalInternalMessage(&NodeEvent{Event: NodeEventType(event), Node: &n}, s)
+}
+
+// Event types of NodeEvent.
+const (
+	VerifLifecycleNodeJoin   = int(NodeJoin)
+	VerifLifecycleNodeLeave  = int(NodeLeave)
+	VerifLifecycleNodeUpdate = int(NodeUpdate)
+)
+
+// NodeMeta is Server.node(): the value a node gossips as its meta data.
+func (v *VerifLifecycleNode) NodeMeta() Node {
+	v.c.mu.RLock()
+	defer v.c.mu.RUnlock()
+	return *v.c.Node
+}
+
+// SetCoordinator is API.SetCoordinator.
+func (v *VerifLifecycleNode) SetCoordinator(id string) (oldID, newID string, err error) {
+	o, n, err := v.api.SetCoordinator(context.Background(), id)
+	if o != nil {
+		oldID = o.ID
+	}
+	if n != nil {
+		newID = n.ID
+	}
+	return oldID, newID, err
+}
+
+// RemoveNode is API.RemoveNode.
+func (v *VerifLifecycleNode) RemoveNode(id string) error {
+	_, err := v.api.RemoveNode(id)
+	return err
+}
+
+// VerifLifecycleMember is one entry of cluster.nodes.
+type VerifLifecycleMember struct {
+	ID            string
+	State         string
+	IsCoordinator bool
+}
+
+// VerifLifecycleView is a snapshot of a node's cluster object, read under c.mu.
+type VerifLifecycleView struct {
+	State       string
+	Coordinator string
+	Nodes       []VerifLifecycleMember // cluster.nodes, in order
+	Topology    []string               // Topology.nodeIDs, in order
+	NodeStates  map[string]string      // Topology.nodeStates
+	SelfState   string                 // cluster.Node.State
+	SelfIsCoord bool                   // cluster.Node.IsCoordinator
+	SelfInNodes bool                   // cluster.Node is the object listed in cluster.nodes
+	Sorted      bool                   // cluster.nodes is sorted by id without duplicates
+	Joined      bool
+}
+
+// View returns a snapshot of the node's cluster object.
+func (v *VerifLifecycleNode) View() VerifLifecycleView {
+	c := v.c
+	c.mu.RLock()
+	defer c.mu.RUnlock()
+	out := VerifLifecycleView{
+		State:       c.state,
+		Coordinator: c.Coordinator,
+		NodeStates:  map[string]string{},
+		SelfState:   c.Node.State,
+		SelfIsCoord: c.Node.IsCoordinator,
+		Joined:      v.Joined(),
+	}
+	for _, n := range c.nodes {
+		out.Nodes = append(out.Nodes, VerifLifecycleMember{ID: n.ID, State: n.State, IsCoordinator: n.IsCoordinator})
+		if n == c.Node {
+			out.SelfInNodes = true
+		}
+	}
+	out.Sorted = sort.SliceIsSorted(out.Nodes, func(i, j int) bool { return out.Nodes[i].ID <= out.Nodes[j].ID })
+	if c.Topology != nil {
+		c.Topology.mu.RLock()
+		out.Topology = append([]string(nil), c.Topology.nodeIDs...)
+		for k, s := range c.Topology.nodeStates {
+			out.NodeStates[k] = s
+		}
+		c.Topology.mu.RUnlock()
+	}
+	return out
+}
+
+// VerifLifecycleWriteTopology writes the .topology file of a data directory
+// (cluster.saveTopology) for the given node ids, as a previous run of the
+// cluster would have left it.
+func VerifLifecycleWriteTopology(path string, ids []string) error {
+	c := newCluster()
+	c.Path = path
+	c.Topology = newTopology()
+	for _, id := range ids {
+		c.Topology.addID(id)
+	}
+	return c.saveTopology()
+}
+
+// Close closes the holder.
+func (v *VerifLifecycleNode) Close() error { return v.h.Close() }
